@@ -111,9 +111,17 @@ def lifecycle_case(case):
         # the key type is changed, the daemon restarted with nothing due (a new key is generated and stored, the CA is not told),
         # then changed again: the roll-over that follows must still be authorised by the key the CA holds
         phases.append({'cfg': mk_cfg(case['kmid'], ['b@example.org', 'c@example.org']), 'stop': idle, 'timeout': 30, 'abort_on_timeout': False})
+    if case.get('refused_update'):
+        # key and contacts are edited together; the CA accepts the roll-over and refuses the contact update for the whole run; after the
+        # next restart the account must still speak with the key the CA now holds
+        refuse = dict(plan, faults=[{'kind': 'accountUpdate', 'action': 'acme_error', 'type': 'invalidContact', 'status': 400, 'id': 'update-refused'}])
+        phases += [
+            {'cfg': mk_cfg(case['k1'], ['d@example.org']), 'before': rm_cert, 'plan': refuse, 'timeout': 40, 'abort_on_timeout': False,
+             'stop': lambda hooks, log: len([h for h in hooks if C.hook_event(h) == 'post-operation']) >= 2 * nc},
+            {'cfg': mk_cfg(case['k1'], ['d@example.org']), 'before': rm_cert, 'plan': plan, 'stop': n_ok(1), 'timeout': 60}]
     phases += [
-        {'cfg': mk_cfg(case['k1'], ['b@example.org', 'c@example.org']), 'before': rm_cert, 'stop': n_ok(1), 'timeout': 60},
-        {'cfg': mk_cfg(case['k1'], ['b@example.org', 'c@example.org']), 'before': forget, 'stop': n_ok(1), 'timeout': 60},
+        {'cfg': mk_cfg(case['k1'], ['b@example.org', 'c@example.org'] if not case.get('refused_update') else ['d@example.org']), 'before': rm_cert, 'stop': n_ok(1), 'timeout': 60},
+        {'cfg': mk_cfg(case['k1'], ['b@example.org', 'c@example.org'] if not case.get('refused_update') else ['d@example.org']), 'before': forget, 'stop': n_ok(1), 'timeout': 60},
     ]
     run = S.run_phases('C04', 'l%d' % case['i'], phases, plan0=plan)
     res = new_res(case)
@@ -122,7 +130,7 @@ def lifecycle_case(case):
         res['phases_done'] = len([p for p in run.phases if not p['timed_out']])
         succ = len(S.successes(run.hooks))
         res['successes'] = succ
-        if succ < 5 * nc:
+        if succ < (5 + (1 if case.get('refused_update') else 0)) * nc:
             res['infra'] = 'lifecycle %s->%s: only %d of the expected issuances succeeded (phases: %s)' % (case['k0'], case['k1'], succ, [(p['rc'], p['timed_out']) for p in run.phases])
         if res['problems']:
             res['replay_dir'] = run.dir
@@ -236,7 +244,7 @@ def run(tier):
         if 'rsa4096' in (k0, k1) and i % 4:
             k0, k1 = (k0 if k0 != 'rsa4096' else 'ecdsa_p384'), (k1 if k1 != 'rsa4096' else 'ed448')
         kmid = [t for t in ('ecdsa_p384', 'ed25519', 'ecdsa_p256', 'ed448') if t not in (k0, k1)][i % 2]
-        life.append({'i': i, 'k0': k0, 'k1': k1, 'kmid': kmid, 'double_key': i % 3 == 1, 'two_endpoints': bool(i % 2 == 0), 'eab': EAB_ALGS[i % 3] if i % 2 else None, 'eab_len': r.choice([16, 32, 64, 100]),
+        life.append({'i': i, 'k0': k0, 'k1': k1, 'kmid': kmid, 'double_key': i % 3 == 1, 'refused_update': i % 4 == 2, 'two_endpoints': bool(i % 2 == 0), 'eab': EAB_ALGS[i % 3] if i % 2 else None, 'eab_len': r.choice([16, 32, 64, 100]),
                      'nonce_on_get': bool(i % 3)})
     storms = [{'i': i, 'k0': kts[(i + 2) % 7] if (kts[(i + 2) % 7] != 'rsa4096' or i % 3 == 0) else 'ecdsa_p521', 'n_ids': r.choice([1, 2, 3]),
                'lens': [r.randint(1, 9) for _ in range(12)], 'nonce_on_get': bool(i % 2),
